@@ -15,7 +15,8 @@ EXPLANATION = (
     "interface.  Decides these structural clauses, not which addresses over which history."
     " (g) Every path that ends a hostname search purges its pending ResolveHostname rerun."
     " (h) HostnameResolutionEvent sends are lossless; keys of hostname_resolvers and addr are folded by one function."
-    " (i) A function that compares a record type with A or AAAA compares it with both. The doubling schedule of the hostname search (C19a) is checked here too.")
+    " (i) A function that compares a record type with A or AAAA compares it with both. The doubling schedule of the hostname search (C19a) is checked here too."
+    " (j) refresh_due_hostname_resolutions returns one entry per due address record (name, address), not one per host.")
 UNDECIDED = ["which addresses are reported over which arrival history", "exact time of SearchTimeout",
              "doubling schedule (decided under C19)"]
 
